@@ -4,7 +4,6 @@ import (
 	"bytes"
 	"encoding/json"
 	"fmt"
-	"io"
 	"os"
 	"runtime"
 	"strings"
@@ -69,8 +68,7 @@ func c12Scan(name string, in []byte) {
 		var cfg transferConfig
 		_ = json.Unmarshal([]byte(`{"escape_chars":`+string(in)+`}`), &cfg)
 	case "transformPromptInput":
-		pr, pw := io.Pipe()
-		go io.Copy(io.Discard, pr)
+		_, pw := vs.IOPipe() // buffered: nothing has to drain it
 		f := &TrzszFilter{}
 		f.transformPromptInput(pw, append([]byte(nil), in...))
 		pw.Close()
